@@ -964,98 +964,46 @@ theorem wexec_fixed (m : Nat) (hm : 0 < m) (ops : List Op) (hfix : ops.all (fixe
 
 /-! ### un-shift -/
 
-theorem alookup_aerase {κ α : Type} [DecidableEq κ] (s : List (κ × α)) (k j : κ) (hnd : (s.map (·.1)).Nodup) :
-    alookup (aerase s k) j = if j = k then none else alookup s j := by
+theorem lookup_unshift (s : Store) (j : Nat) : lookup (unshift s) j = lookup s (j + 1) := by
   induction s with
-  | nil => simp [aerase, alookup]
+  | nil => rfl
   | cons p s ih =>
-    have hn := nodup_map_cons hnd
-    unfold aerase
-    by_cases hp : p.1 = k
+    unfold unshift
+    by_cases hp : 0 < p.1
     · rw [if_pos hp]
-      by_cases hj : j = k
-      · rw [if_pos hj]
-        cases hl : alookup s j with
-        | none => rfl
-        | some v =>
-          exfalso; apply hn.1
-          rw [hp, ← hj, mem_keys_iff, hl]; rfl
-      · have : ¬ p.1 = j := fun e => hj (e.symm.trans hp)
-        simp [alookup, hj, this]
+      show alookup _ j = alookup _ (j + 1)
+      simp only [alookup]
+      by_cases hj : p.1 = j + 1
+      · have : p.1 - 1 = j := by omega
+        simp [hj]
+      · have : ¬ p.1 - 1 = j := by omega
+        rw [if_neg this, if_neg hj]
+        exact ih
     · rw [if_neg hp]
-      by_cases hpj : p.1 = j
-      · have : ¬ j = k := fun e => hp (hpj.trans e)
-        simp [alookup, hpj, this]
-      · simp only [alookup, if_neg hpj, ih hn.2]
+      have : ¬ p.1 = j + 1 := by omega
+      show lookup _ j = alookup _ (j + 1)
+      simp only [alookup, if_neg this]
+      exact ih
 
-theorem mem_keys_aerase {κ α : Type} [DecidableEq κ] (s : List (κ × α)) (k j : κ)
-    (h : j ∈ (aerase s k).map (·.1)) : j ∈ s.map (·.1) := by
-  induction s with
-  | nil => simp [aerase] at h
-  | cons p s ih =>
-    unfold aerase at h
-    split at h
-    · simp only [List.map_cons, List.mem_cons]; exact Or.inr h
-    · simp only [List.map_cons, List.mem_cons] at h ⊢
-      rcases h with h | h
-      · exact Or.inl h
-      · exact Or.inr (ih h)
+theorem mem_keys_unshift (s : Store) (j : Nat) (h : j ∈ (unshift s).map (·.1)) : j + 1 ∈ s.map (·.1) := by
+  rw [mem_keys_iff] at h ⊢
+  have := lookup_unshift s j
+  unfold lookup at this
+  rw [← this]; exact h
 
-theorem nodup_keys_aerase {κ α : Type} [DecidableEq κ] (s : List (κ × α)) (k : κ) (hnd : (s.map (·.1)).Nodup) :
-    ((aerase s k).map (·.1)).Nodup := by
+theorem nodup_keys_unshift (s : Store) (hnd : (s.map (·.1)).Nodup) : ((unshift s).map (·.1)).Nodup := by
   induction s with
-  | nil => simp [aerase]
+  | nil => simp [unshift]
   | cons p s ih =>
     have hn := nodup_map_cons hnd
-    unfold aerase
+    unfold unshift
     split
-    · exact hn.2
     · simp only [List.map_cons]
-      exact List.nodup_cons.mpr ⟨fun e => hn.1 (mem_keys_aerase s k _ e), ih hn.2⟩
-
-theorem unshiftLoop_nodup (i c : Nat) (s : Store) (h : (s.map (·.1)).Nodup) :
-    (((unshiftLoop i c s).1).map (·.1)).Nodup := by
-  induction c generalizing i s with
-  | zero => exact h
-  | succ c ih =>
-    unfold unshiftLoop
-    cases lookup s (i + 1) with
-    | none => exact h
-    | some v => exact ih _ _ (nodup_insert s i v h)
-
-theorem unshiftLoop_spec (i c : Nat) (s : Store)
-    (hall : ∀ j, i ≤ j → j < i + c → (lookup s (j + 1)).isSome = true) :
-    (unshiftLoop i c s).2 = true ∧
-      ∀ j, lookup (unshiftLoop i c s).1 j = if i ≤ j ∧ j < i + c then lookup s (j + 1) else lookup s j := by
-  induction c generalizing i s with
-  | zero =>
-    refine ⟨rfl, fun j => ?_⟩
-    have : ¬ (i ≤ j ∧ j < i + 0) := by omega
-    rw [if_neg this]; rfl
-  | succ c ih =>
-    unfold unshiftLoop
-    cases hl : lookup s (i + 1) with
-    | none =>
-      have := hall i (Nat.le_refl _) (by omega)
-      simp [hl] at this
-    | some v =>
-      simp only
-      have hall' : ∀ j, i + 1 ≤ j → j < i + 1 + c → (lookup (insert s i v) (j + 1)).isSome = true := by
-        intro j h1 h2
-        rw [lookup_insert_ne _ _ _ _ (by omega)]
-        exact hall j (by omega) (by omega)
-      have := ih (i + 1) (insert s i v) hall'
-      refine ⟨this.1, fun j => ?_⟩
-      rw [this.2 j]
-      by_cases h1 : i + 1 ≤ j ∧ j < i + 1 + c
-      · have h2 : i ≤ j ∧ j < i + (c + 1) := by omega
-        rw [if_pos h1, if_pos h2, lookup_insert_ne _ _ _ _ (by omega)]
-      · rw [if_neg h1]
-        by_cases hj : j = i
-        · subst hj
-          have h2 : j ≤ j ∧ j < j + (c + 1) := by omega
-          rw [if_pos h2, lookup_insert_self, hl]
-        · have h2 : ¬ (i ≤ j ∧ j < i + (c + 1)) := by omega
-          rw [if_neg h2, lookup_insert_ne _ _ _ _ hj]
+      refine List.nodup_cons.mpr ⟨fun e => ?_, ih hn.2⟩
+      have := mem_keys_unshift s _ e
+      have h1 : p.1 - 1 + 1 = p.1 := by omega
+      rw [h1] at this
+      exact hn.1 this
+    · exact ih hn.2
 
 end PorepyVerif.C08
